@@ -66,8 +66,36 @@ def kani_part(name, runner):
     }
 
 
+def check_pins(pins):
+    """ASSUMED pieces of the real code (e.g. the text layer: Display impls, the Formatter tail) are pinned to the text
+    the assumption was argued for.  A changed pin voids the assumption: the run is undecided and vcheck's fallback hands
+    the decision to the failing-input search (never an alarm by itself)."""
+    from extract import rsx
+    from .verus import REPO
+    out = []
+    for f, sel, want in pins:
+        path = os.path.join(REPO, f)
+        try:
+            src = rsx.Source(path)
+            if sel.startswith('tail '):
+                # 'tail <impl header> :: <fn> :: <anchor text>': everything of the fn from the anchor on
+                hdr, fn, anchor = [x.strip() for x in sel[5:].split(' :: ')]
+                text = src.impl_fn(hdr, fn)[1]
+                text = text[text.index(anchor):]
+            else:
+                text = src.impl_item(sel)
+            got = rsx.sha(rsx.norm_fp(text))
+        except Exception as e:
+            raise Undecided('lost anchor: assumed item %s :: %s not found (%s)' % (f, sel, e))
+        if got != want:
+            raise Undecided('lost anchor: assumed item %s :: %s changed (fingerprint %s, expected %s): the assumption about it is no longer backed' % (f, sel, got, want))
+        out.append({'file': f, 'item': sel, 'sha256_16': got})
+    return out
+
+
 def run(pid, tier, seed, cfg):
     t0 = time.time()
+    pinned = check_pins(cfg.get('pins', []))
     # parts are independent (different units / scratch copies): run them concurrently
     from concurrent.futures import ThreadPoolExecutor
     with ThreadPoolExecutor(max_workers=len(cfg['parts'])) as ex:
@@ -121,6 +149,7 @@ def run(pid, tier, seed, cfg):
         'samples': cfg['samples'],
         'failing_input_search': info,
         'known_finding_probes': probe_info,
+        'pinned_assumed_items': pinned,
         'exhaustive': False,
     }
     return core.finish(pid, tier, seed, t0, violations, cov, cfg['assumptions'])
